@@ -226,7 +226,12 @@ def pointwise(E, opname, operands, node=None, out_dtype=None, compute_dtype=None
                 vals.append(scalar_to(E, x, compute_dtype))
         return fn(alg, vals, compute_dtype)
 
-    return STensor(res_dtype, oshape, elem, device=device, fresh=True)
+    out = STensor(res_dtype, oshape, elem, device=device, fresh=True)
+    # memory layout of the result: PyTorch keeps the (permuted / strided) layout of non-contiguous operands; the model does not compute
+    # it - only results of all-contiguous operands are known to be contiguous (view() on the others is outside the model)
+    if any(len(x.shape) > 1 and (x.strides is not None or x.attrs.get("layout_unknown")) and not x.attrs.get("known_contiguous") for _, x in tens):
+        out.attrs["layout_unknown"] = True
+    return out
 
 
 _ARITH = {"Add": "add", "Sub": "sub", "Mult": "mul", "Div": "truediv", "FloorDiv": "floordiv", "LShift": "lshift",
